@@ -2,7 +2,7 @@ def obligations(tier):
     T = tier == "thorough"
     nm = 9 if T else 6
     obs = []
-    common = dict(harness="body.c", unwind=nm + 6, unwindset=["findeol#0:%d" % (nm + 2), "vhs_scan#0:%d" % (nm + 3), "vhs_scan#1:%d" % (nm + 3)], backends=["cadical"], timeout=1800 if T else 280,
+    common = dict(harness="body.c", unwind=40, unwindset=["findeol#0:%d" % (nm + 2), "vhs_scan#0:%d" % (nm + 3), "vhs_scan#1:%d" % (nm + 3)], backends=["cadical"], timeout=1800 if T else 280,
                   stubs=["netbuf_read_peek -> exact-size object with the unconsumed bytes; wait/consume recorded", "strtoumax -> C11 model (models/libc_strto.c)", "successor callbacks -> hand-over stubs", "network/close/warnp -> no-ops"],
                   bounds="<= %d buffered bytes (all byte values), body allocation <= 8 bytes, limits/lengths fully symbolic 64-bit" % nm)
     obs.append(dict(name="chunk-header-stage", entry="h_chunkhdr", defs=["NMAX=%d" % nm], replace=["callback_readdata:stub_readdata"],
@@ -17,8 +17,8 @@ def obligations(tier):
                     claim="callback_read_toeof and get_body_gotclen: oversized bodies reported as (size_t)(-1) with no buffer, otherwise within the limit; no assertion failure", **common))
     REP = ["callback_chunkedheader:stub_chunkhdr", "get_body_gotclen:stub_gotclen", "callback_read_toeof:stub_toeof", "callback_read_header:stub_readheader"]
     REPP = REP + ["findeol:stub_findeol"]
-    SHAPES = [("blank", [0]), ("status13", [13]), ("status13-h4", [13, 4]), ("status15-h3-h6", [15, 3, 6]), ("status13-clen17", [13, 17]), ("status13-te26", [13, 26]), ("status13-te26-clen17", [13, 26, 17]), ("status9-h1", [9, 1])]
-    if T: SHAPES += [("status13-h0", [13, 0]), ("status13-h5-h5-h5", [13, 5, 5, 5]), ("status20-clen19", [20, 19]), ("status13-clen17-te26", [13, 17, 26])]
+    SHAPES = [("blank", [0]), ("status13", [13]), ("status13-h4", [13, 4]), ("status15-h3-h6", [15, 3, 6]), ("status13-clen17", [13, 17]), ("status9-h1", [9, 1])]
+    if T: SHAPES += [("status13-te26", [13, 26]), ("status13-te26-clen17", [13, 26, 17]), ("status13-h0", [13, 0]), ("status13-h5-h5-h5", [13, 5, 5, 5]), ("status20-clen19", [20, 19]), ("status13-clen17-te26", [13, 17, 26])]
     for nm_, sh in SHAPES:
         n = sum(sh) + 2 * len(sh) + 2
         obs.append(dict(name="header-parse-stage-" + nm_, harness="hdr.c", entry="h_header", defs=["N=%d" % n, "EXTRA=2", "SHAPE={%s-1}" % "".join("%d," % x for x in sh)], replace=REPP, unwind=max(n + 8, 20), backends=["cadical"], timeout=1800 if T else 280,
